@@ -8,6 +8,7 @@
    events   reset {r, p, q, exact, htab}     htab[s][i+1] = hash (0..q-1) of string s with salt i
             ins {n, m, ver} / rem {n, m}     Insert / Remove on node n's ring
             lookup {n, k, f, m, ver}         Lookup(k) answered (found, member, value)
+            lookups {n, ks, fs, ms, vers}    a batch of Lookups with no mutation in between (parallel lists)
             len {n, len}                                                                        *)
 EXTENDS TraceLib, Ring
 
@@ -26,7 +27,10 @@ TLookup == /\ IsEvent("lookup")
            /\ Lookup(Cur.n, Cur.k, Cur.f, Cur.m, Cur.ver)
            /\ ExactOK = TRUE
            /\ UNCHANGED cfgv
+TLookups == /\ IsEvent("lookups")
+            /\ LookupBatch(Cur.n, Cur.ks, Cur.fs, Cur.ms, Cur.vers)
+            /\ UNCHANGED cfgv
 TLen == IsEvent("len") /\ LenIs(Cur.n, Cur.len) /\ UNCHANGED cfgv
 
-TNext == TReset \/ TIns \/ TRem \/ TLookup \/ TLen
+TNext == TReset \/ TIns \/ TRem \/ TLookup \/ TLookups \/ TLen
 =============================================================================
